@@ -292,6 +292,11 @@ class Gen(object):
                 wn.get_node(n).add_leak(wn, **kw)
                 self.call('%s.add_leak(wn, **%s)' % (n, kw))
                 self.features.add('leak_timed' if (kw['start_time'] is not None or kw['end_time'] is not None) else 'leak')
+                if self.maybe(0.2):
+                    # a leak that was removed again before the model is saved: its parameters stay on the node, its controls go
+                    wn.get_node(n).remove_leak(wn)
+                    self.call('%s.remove_leak(wn)' % n)
+                    self.features.add('leak_removed')
         if self._trace:
             wn.options.quality.trace_node = r.choice(nodes)
             self.call('options.quality.trace_node = %r' % wn.options.quality.trace_node)
